@@ -106,7 +106,7 @@ func c11case(c *wk.Ctx, idx int, r *rand.Rand, h c11history) {
 	rejectedFrames := 0
 	hold := map[uint64]bool{}
 	sawNewSaltAt := map[int64]bool{}
-	var bundled [][]byte // bad_server_salt bodies waiting to travel with the next answer
+	var bundled [][2]int64 // (msg_id, seq_no) of rejected acknowledgements whose bad_server_salt travels with the next answer
 	var grace int64 // a salt announced by new_session_created is valid at once; the previous one stays valid until the client has acknowledged
 	graceOn := false
 	e, err := newRPCEnv(c, idx, r, envOpts{
@@ -131,9 +131,10 @@ func c11case(c *wk.Ctx, idx int, r *rand.Rand, h c11history) {
 			bss := refserver.BadServerSalt(in.MsgID, in.SeqNo, cur)
 			if !ok && h.Bundle {
 				// the rejection of a message nobody waits for (an acknowledgement) is kept and sent in one container
-				// together with the next answers, in front of them
+				// together with the next answers, in front of them; the notification is composed when it is sent, so
+				// it names the salt valid at that moment (a conformant server never announces a salt it has left behind)
 				mu.Lock()
-				bundled = append(bundled, bss)
+				bundled = append(bundled, [2]int64{in.MsgID, int64(in.SeqNo)})
 				mu.Unlock()
 				return true
 			}
@@ -383,7 +384,7 @@ func c11case(c *wk.Ctx, idx int, r *rand.Rand, h c11history) {
 }
 
 // c11send answers one request; bad_server_salt bodies kept back for bundling go out in the same container, first.
-func c11send(e *rpcEnv, p pendingReq, mu *sync.Mutex, bundled *[][]byte) {
+func c11send(e *rpcEnv, p pendingReq, mu *sync.Mutex, bundled *[][2]int64) {
 	mu.Lock()
 	b := *bundled
 	*bundled = nil
@@ -394,8 +395,8 @@ func c11send(e *rpcEnv, p pendingReq, mu *sync.Mutex, bundled *[][]byte) {
 	}
 	e.c.Count("bundled.containers_with_rejection_first", 1)
 	var items []refserver.Out
-	for _, body := range b {
-		items = append(items, refserver.Out{MsgID: e.srv.NextMsgID(3), SeqNo: p.conn.NextSeq(false), Body: body})
+	for _, rj := range b {
+		items = append(items, refserver.Out{MsgID: e.srv.NextMsgID(3), SeqNo: p.conn.NextSeq(false), Body: refserver.BadServerSalt(rj[0], int32(rj[1]), e.salt())})
 	}
 	id := e.srv.NextMsgID(1)
 	e.mu.Lock()
